@@ -181,9 +181,31 @@ fn part_a(ctx: &Ctx, out: &mut WorkerOut) {
         let body: String = fields.iter().map(|(k, v)| format!("{}={}", pct(k, rq.plus), pct(v, rq.plus))).collect::<Vec<_>>().join("&");
         let target = if rq.session == "valid" { sid.to_string() } else { rq.session.clone() };
         let uri = format!("/scxml/{}", target);
+        // environment deviation: for a listed subset of the requests another thread holds the executor state (as a
+        // starting session or a concurrent request does) at the moment the request arrives; the request has to wait
+        // and is then handled like any other
+        let hold = i % 29 == 0;
+        let holder = if hold {
+            let st = ex.state.clone();
+            let (tx, rx) = std::sync::mpsc::channel::<()>();
+            let h = std::thread::spawn(move || {
+                let guard = st.lock();
+                let _ = tx.send(());
+                std::thread::sleep(Duration::from_millis(100));
+                drop(guard);
+            });
+            let _ = rx.recv();
+            Some(h)
+        } else {
+            None
+        };
         let resp = client.post(uri.clone()).header(ContentType::Form).body(body.clone()).dispatch();
         let status = resp.status().code;
         drop(resp);
+        if let Some(h) = holder {
+            let _ = h.join();
+            out.add("requests_while_executor_state_is_held", 1);
+        }
         out.add("requests", 1);
         // sentinel: everything the request enqueued is processed before it
         let sentinel = format!("sentinel.{}", i);
